@@ -122,8 +122,8 @@ fn c16_echo_g41v2_u8() {
 
 // @harness c16_echo_g41v1_u16
 // @props C16
-// @tier quick
-// @timeout 1800
+// @tier thorough
+// @timeout 3600
 // @mem 6
 // @units CommandHeader::{compare, compare_items}, Group41Var1::{read,write}
 // @bounds analog output 32-bit, 16-bit indices, same mutations
